@@ -9,7 +9,7 @@ let run (line : string) : string =
   match parse_tokens cfg_default toks with
   | None -> "outoffuel"
   | Some r ->
-      let n = ref 0 and prem = ref 0 and ok = ref 0 and bad = ref [] in
+      let n = ref 0 and prem = ref 0 and ok = ref 0 and okp = ref 0 and bad = ref [] in
       List.iter (fun s -> match s with
         | SExpr e ->
             incr n;
@@ -22,7 +22,16 @@ let run (line : string) : string =
                     shape_program r2.pr_program = shape_program (expr_program (groupify e)) &&
                     List.map strip_groups_stmt (shape_program r2.pr_program).p_stmts
                     = List.map strip_groups_stmt (shape_program (expr_program e)).p_stmts in
+              (* pretty: the same statement for comment-free trees whose literals are trim safe *)
+              let e0 = tmap_expr erase_comments e in
+              let tab = [Util.n_of_int 9] in
+              let goodp cfg = match reparse cfg (expr_program e0) with
+                | None -> false
+                | Some r2 ->
+                    r2.pr_errors = [] &&
+                    shape_program r2.pr_program = shape_program (expr_program (groupify e0)) in
+              if goodp (cfg_pretty tab false false) && goodp (cfg_pretty [] true true) then incr okp;
               if good then incr ok else bad := Pcase.sx_expr e :: !bad
             end
         | _ -> ()) r.pr_program.p_stmts;
-      Printf.sprintf "stmts=%d premises=%d ok=%d %s" !n !prem !ok (String.concat " | " !bad)
+      Printf.sprintf "stmts=%d premises=%d ok=%d okp=%d %s" !n !prem !ok !okp (String.concat " | " !bad)
